@@ -1138,7 +1138,14 @@ class Verifier(Exec):
             return PtrV(a[2], v.elem, None)
         if a[0] in ('fld', 'idx', 'sel'):
             et = a[3]
-            if self.is_scalar(et) and a[0] == 'fld' or (a[0] in ('idx', 'sel') and self.is_scalar(et)):
+            if self.is_scalar(et) and a[0] == 'fld' and not self.is_string(et):
+                # &s.f of a scalar field as a first-class pointer: loads and stores through pointers of this type
+                # consider that it may designate this field (registered before execution, see scan_scalar_targets)
+                key_ = self.elem_key(et)
+                if (a[4], a[2], et) not in self.scalar_targets.get(key_, ()):
+                    raise Unsupported('pointer to scalar field escapes and was not registered: %r' % (a,))
+                return PtrV(self.addr_term(st, a), v.elem, None)
+            if a[0] in ('idx', 'sel') and self.is_scalar(et):
                 raise Unsupported('pointer to scalar field/element escapes: %r' % (a,))
             return PtrV(self.addr_term(st, a), v.elem, None)
         raise Unsupported('ptr_term %r' % (a,))
